@@ -23,7 +23,9 @@ func Ports(svc *v1.Service) []allocator.Port {
 // BackendKey extracts the backend key for a service.
 func BackendKey(svc *v1.Service) string {
 	if svc.Spec.ExternalTrafficPolicy == v1.ServiceExternalTrafficPolicyTypeLocal {
-		return labels.Set(svc.Spec.Selector).String()
+		// The prefix keeps a Local service without selector from having the
+		// (empty) key of the Cluster traffic policy.
+		return "local:" + labels.Set(svc.Spec.Selector).String()
 	}
 	// Cluster traffic policy can share services regardless of backends.
 	return ""
